@@ -74,7 +74,16 @@ def gen_state(rng):
     for _ in range(nfp):
         fp[rng.choice(FPK)] = rng.choice(FPV)
     outs = rng.sample(OUTS, rng.randint(0, 3))
+    # some inputs are symbolic links to a file that is not itself an input: the state is (path, content the link resolves to)
+    links = {}
+    for p in list(files):
+        if "/" not in p and files[p] is not None and rng.random() < 0.12:
+            links[p] = "_t_" + "".join("%02x" % ord(ch) for ch in p)
+    # fields of a target that are NOT part of the state (the key must not depend on them)
+    extra = {"selectors": rng.choice([[], [], ["linux/amd64"], ["darwin/arm64"], ["linux/amd64", "darwin/arm64"]]),
+             "env": rng.choice([{}, {}, {"K": "v"}, {"PATH": "/x"}]), "extra_tags": rng.choice([[], [], ["no-cache"], ["manual", "T1"]])}
     return {
+        "links": links, "extra": extra,
         "pkg": rng.choice(["", "p", "p/q"]), "name": rng.choice(["t", "t2", "a", "ab"]),
         "command": "".join(rng.choice(FRAG) for _ in range(rng.randint(0, 4))),
         "inputs": paths, "files": files,
@@ -100,12 +109,18 @@ def to_req(s, algo, rootname="ws", rng=None):
     return {"op": "hash.key", "variant": __import__("os").environ.get("VERIF_C09_VARIANT", "new"), "algo": algo, "rootname": rootname, "pkg": s["pkg"], "name": s["name"], "command": s["command"],
             "inputs": list(s["inputs"]), "files": [[p, c] for p, c in files], "outputs": [list(o) for o in s["outputs"]],
             "deps": [[k, v] for k, v in (sorted(s["deps"].items(), reverse=True) if rng is not None and rng.random() < 0.5 else s["deps"].items())],
-            "fingerprint": [[k, v] for k, v in fp], "platform": s["platform"], "bin": s.get("bin", "")}
+            "fingerprint": [[k, v] for k, v in fp], "platform": s["platform"], "bin": s.get("bin", ""),
+            # symbolic links: "files" carries the content each link resolves to (what the model hashes); the real side replaces the file by a
+            # link to a hidden file with that content
+            "links": [[p, t] for p, t in s.get("links", {}).items() if s["files"].get(p) is not None],
+            "hidden": [[t, s["files"][p]] for p, t in s.get("links", {}).items() if s["files"].get(p) is not None],
+            "selectors": s.get("extra", {}).get("selectors", []), "env": [[k, v] for k, v in s.get("extra", {}).get("env", {}).items()],
+            "extra_tags": s.get("extra", {}).get("extra_tags", [])}
 
 
 def base_state():
     return {"pkg": "p", "name": "t", "command": "cmd", "inputs": [], "files": {}, "outputs": [], "deps": {}, "fingerprint": {},
-            "platform": "linux/amd64", "bin": ""}
+            "platform": "linux/amd64", "bin": "", "links": {}, "extra": {}}
 
 
 def targeted_pairs():
@@ -185,6 +200,21 @@ def targeted_pairs():
     # without the size header: a presence byte inside the content
     out.append(("frame:presence-byte-in-content", st(inputs=["a", "b"], files={"a": "x\x01", "b": ""}), st(inputs=["a", "b"], files={"a": "x", "b": "\x01"})))
     out.append(("frame:presence-byte-in-content", st(inputs=["a", "b"], files={"a": "x\x00", "b": ""}), st(inputs=["a", "b"], files={"a": "x", "b": None})))
+    # symbolic links: the state is the content the link resolves to, all of it
+    long_a, long_b = "A" * 40 + "1", "A" * 40 + "2"
+    out.append(("symlink:content-beyond-link-text-length", st(inputs=["l"], files={"l": long_a}, links={"l": "_t"}), st(inputs=["l"], files={"l": long_b}, links={"l": "_t"})))
+    out.append(("symlink:content-beyond-link-text-length", st(inputs=["l", "b"], files={"l": "xy" * 300 + "a", "b": "q"}, links={"l": "_some_longer_target_name"}),
+                st(inputs=["l", "b"], files={"l": "xy" * 300 + "b", "b": "q"}, links={"l": "_some_longer_target_name"})))
+    out.append(("symlink:same-content-as-regular-file", st(inputs=["l"], files={"l": long_a}, links={"l": "_t"}), st(inputs=["l"], files={"l": long_a})))
+    out.append(("symlink:other-target-same-content", st(inputs=["l"], files={"l": "same"}, links={"l": "_t1"}), st(inputs=["l"], files={"l": "same"}, links={"l": "_other_target"})))
+    # fields that are not part of the state: platform selectors, environment variables, other tags
+    for plat in ("linux/amd64", "darwin/arm64"):
+        for sel in (["linux/amd64"], ["darwin/arm64"], ["linux/amd64", "darwin/arm64"]):
+            out.append(("nonstate:selector-does-not-enter-key", st(platform=plat, extra={"selectors": sel}), st(platform=plat, extra={"selectors": []})))
+    for sel in ([], ["linux/amd64"], ["darwin/arm64"], ["linux/amd64", "darwin/arm64"]):
+        out.append(("platform-differs-with-selector", st(platform="linux/amd64", extra={"selectors": sel}), st(platform="darwin/arm64", extra={"selectors": sel})))
+    out.append(("nonstate:env-does-not-enter-key", st(extra={"env": {"K": "v"}}), st(extra={"env": {"K": "w"}})))
+    out.append(("nonstate:tags-do-not-enter-key", st(extra={"extra_tags": ["no-cache", "x"]}), st(extra={"extra_tags": []})))
     # duplicates / order (must be equal)
     out.append(("dup-input", st(inputs=["a", "a"], files={"a": "x"}), st(inputs=["a"], files={"a": "x"})))
     out.append(("dup-input", st(inputs=["a", "b", "a"], files={"a": "x", "b": "y"}), st(inputs=["b", "a"], files={"a": "x", "b": "y"})))
@@ -197,7 +227,7 @@ def targeted_pairs():
 def mutate(rng, s):
     """a small semantic edit (usually changes the state)"""
     t = copy.deepcopy(s)
-    kind = rng.choice(["command", "content", "addinput", "rminput", "output", "dep", "fp", "platform", "name", "shiftcmd", "shiftfile", "perm", "dupinput"])
+    kind = rng.choice(["command", "content", "addinput", "rminput", "output", "dep", "fp", "platform", "name", "shiftcmd", "shiftfile", "perm", "dupinput", "linktoggle", "nonstate", "tailbyte"])
     if kind == "command":
         t["command"] += rng.choice(FRAG)
     elif kind == "content" and t["inputs"]:
@@ -236,6 +266,24 @@ def mutate(rng, s):
         t["fingerprint"] = dict(sorted(t["fingerprint"].items(), reverse=True))
     elif kind == "dupinput" and t["inputs"]:
         t["inputs"].append(rng.choice(t["inputs"]))
+    elif kind == "linktoggle":
+        # the same content reached through a link instead of a regular file (or back): same state
+        t.setdefault("links", {})
+        cands = [p for p in t["files"] if "/" not in p and t["files"][p] is not None]
+        if cands:
+            p = rng.choice(cands)
+            if p in t["links"]:
+                del t["links"][p]
+            else:
+                t["links"][p] = "_t_" + "".join("%02x" % ord(ch) for ch in p)
+    elif kind == "nonstate":
+        t["extra"] = {"selectors": rng.choice([[], ["linux/amd64"], ["darwin/arm64"], ["l/a"]]), "env": rng.choice([{}, {"K": "w"}, {"Z": ""}]),
+                      "extra_tags": rng.choice([[], ["no-cache"], ["x"]])}
+    elif kind == "tailbyte" and t["inputs"]:
+        # change only the last byte of an input's content (also through a link: beyond the length of the link text)
+        p = rng.choice(t["inputs"]); c = t["files"].get(p)
+        if c:
+            t["files"][p] = c[:-1] + ("~" if c[-1] != "~" else "!")
     return kind, t
 
 
@@ -652,7 +700,11 @@ def _cli_ws(rng):
         ts = []
         for i in range(rng.randint(1, 3)):
             name = "t%d" % i
-            ins = rng.sample(["a.txt", "b.txt", "sub/c.txt", "*.txt"], rng.randint(0, 3))
+            ins = rng.sample(["a.txt", "b.txt", "sub/c.txt", "*.txt", "x,y.txt", "x", "y.txt", "a.txt,b.txt"], rng.randint(0, 3))
+            if i == 0 and rng.random() < 0.5:
+                ins = ["x,y.txt"]               # with the next target: two input lists that coincide once joined with ","
+            elif i == 1 and ts and ts[0]["inputs"] == ["x,y.txt"]:
+                ins = ["x", "y.txt"]
             for f in ins:
                 if "*" not in f:
                     files[(pk + "/" if pk else "") + f] = rng.choice(CONTENTS[:6]) + pk + name
@@ -740,6 +792,7 @@ def cli_section(ctx):
     variants = [("json", "elsewhere/deep/er/ws", "num_workers = 1\n", False), ("json", "ws2", "num_workers = 8\n", True),
                 ("yaml", "y/ws", "", False), ("star", "s/ws", "", True)]
     runs = compared = 0
+    _cli_edit_steps = 0
     for i in range(n):
         pkgs, files = _cli_ws(rng)
         algo = rng.choice(["xxh3", "sha256"])
@@ -751,6 +804,40 @@ def cli_section(ctx):
         if ref is None or ref[0] != 0 or len(ref[1]) != ntargets:
             ctx.notes.append("cli reference build unusable (rc/keys): %s %s" % (ref, log[-300:]))
             continue
+        # --- edit one declared input file in the reference workspace: exactly the targets whose state changed get a new key -----------
+        import fnmatch as _fn
+        cand = sorted({((pk + "/" if pk else "") + f, pk, f) for pk, d in pkgs.items() for t in d["targets"] for f in t["inputs"] if "*" not in f})
+        if cand:
+            rel, epk, ef = rng.choice(cand)
+            changed = {(epk, t["name"]) for t in pkgs[epk]["targets"]
+                       if ef in t["inputs"] or any("*" in g and "/" not in ef and _fn.fnmatchcase(ef, g) for g in t["inputs"])}
+            # a target without outputs exposes its change hash as its output digest: its dependants change with it
+            grew = True
+            while grew:
+                grew = False
+                for pk2, d2 in pkgs.items():
+                    for t2 in d2["targets"]:
+                        if (pk2, t2["name"]) in changed:
+                            continue
+                        for dep in t2["deps"]:
+                            dpk, dn = dep[2:].split(":")
+                            dt = [x for x in pkgs[dpk]["targets"] if x["name"] == dn][0]
+                            if (dpk, dn) in changed and not dt["outputs"]:
+                                changed.add((pk2, t2["name"])); grew = True
+            with open(os.path.join(base, "a", "ws", rel), "a") as fh:
+                fh.write("edited")
+            got2, log3 = _keys_after_build(grog, os.path.join(base, "a", "ws"), os.path.join(base, "a", "root"), algo)
+            runs += 1
+            if got2 is not None and got2[0] == 0:
+                _cli_edit_steps += 1
+                new = sorted(set(got2[1]) - set(ref[1]))
+                if len(new) != len(changed):
+                    ctx.violation("after editing one input file the number of targets that received a new cache key differs from the number of targets whose "
+                                  "state changed (the owners of the file and the dependants of output-less owners): a key follows something other than the "
+                                  "target's own state",
+                                  {"kind": "oracle", "oracle": "CLI: an edit changes exactly the keys of the targets whose state changed", "algo": algo, "edited_file": rel,
+                                   "targets_whose_state_changed": sorted("//%s:%s" % c for c in changed), "new_keys": new, "packages": pkgs, "files": files,
+                                   "log": log3[-600:]}, signature="cli-edit-changes-wrong-number-of-keys")
         for fmt, loc, toml, shuffle in variants:
             tag = fmt + ("-shuffled" if shuffle else "") + ":" + loc
             _materialise(os.path.join(base, tag.replace(":", "_").replace("/", "_"), loc), pkgs, files, fmt, rng if shuffle else None, toml)
@@ -769,6 +856,7 @@ def cli_section(ctx):
                               {"kind": "oracle", "oracle": "CLI keys independent of location, format, order, workers, host environment (HOSTNAME, USER, TZ, locale) and file mtimes", "variant": tag, "algo": algo,
                                "packages": pkgs, "files": files, "reference": {"rc": ref[0], "keys": ref[1]}, "variant_result": {"rc": got[0], "keys": got[1]},
                                "log": log2[-800:]}, signature="cli-key-depends-on:" + fmt + ("-shuffled" if shuffle else ""))
+    ctx.coverage["cli_edit_steps"] = _cli_edit_steps
     # --- dependency identity: two dependencies with the same package-relative output swap contents -----------
     import json as _json, shutil as _sh
     for algo in ("xxh3", "sha256"):
